@@ -1514,21 +1514,27 @@ class MacroFunction(Macro):
         if self.has_strcat:
             res_tokens = []
             last_cat = False
+            placemarker = False
             idx = 0
 
             while idx < len(self.replacement):
                 tok = self.replacement[idx]
                 if tok.token == "##":
-                    last = res_tokens.pop()
-                    prev_white = last.prev_white
-                    if not last_cat:
-                        try:
-                            argidx = self.args.index(last.token)
-                            last = input_args[argidx][0]  # Unexpanded arg
-                        except ValueError:
-                            last = [last]
+                    if placemarker:
+                        # The preceding ## joined two empty operands
+                        last = []
+                        prev_white = False
                     else:
-                        last = [last]
+                        last = res_tokens.pop()
+                        prev_white = last.prev_white
+                        if not last_cat:
+                            try:
+                                argidx = self.args.index(last.token)
+                                last = input_args[argidx][0]  # Unexpanded arg
+                            except ValueError:
+                                last = [last]
+                        else:
+                            last = [last]
                     idx += 1
                     nexttok = self.replacement[idx]
                     try:
@@ -1536,7 +1542,7 @@ class MacroFunction(Macro):
                         nexttok = input_args[argidx][0]  # Unexpanded arg
                     except ValueError:
                         nexttok = [nexttok]
-                    if len(last) > 0:
+                    if len(last) > 0 and len(nexttok) > 0:
                         lex = Lexer(last[-1].token + nexttok[0].token)
                         tok = lex.tokenize_one()
                         if tok is None:
@@ -1551,7 +1557,9 @@ class MacroFunction(Macro):
                             toadd[0].prev_white = prev_white
                         res_tokens.extend(toadd)
                     else:
-                        res_tokens.extend(nexttok)
+                        # An empty operand leaves the other one unchanged
+                        res_tokens.extend(last + nexttok)
+                    placemarker = len(last) + len(nexttok) == 0
                     last_cat = True
                 elif tok.token == "#":
                     idx += 1
@@ -1570,9 +1578,11 @@ class MacroFunction(Macro):
                     tok = Lexer.stringify(tok)
                     tok.prev_white = tok.prev_white
                     last_cat = True
+                    placemarker = False
                     res_tokens.append(tok)
                 else:
                     last_cat = False
+                    placemarker = False
                     res_tokens.append(tok)
                 idx += 1
         else:
